@@ -55,6 +55,9 @@ ET_HIOS = 0xFEFF
 ET_LOPROC = 0xFF00
 ET_HIPROC = 0xFFFF
 
+# Special section indices:
+SHN_ABS = 0xFFF1
+
 # Dynamic tags:
 DT_NULL = 0
 DT_NEEDED = 1
@@ -319,7 +322,11 @@ class ElfWriter:
             entry = self.header_types.SymbolTableEntry()
             entry.st_name = self.get_string(symbol.name)
             entry.st_info = (int(st_bind) << 4) | int(st_type)
-            if symbol.defined:
+            if symbol.defined and symbol.section is None:
+                # Absolute symbol, not relative to any section:
+                entry.st_shndx = SHN_ABS
+                entry.st_value = symbol.value
+            elif symbol.defined:
                 entry.st_shndx = self.section_numbers[symbol.section]
                 entry.st_value = (
                     symbol.value + self.obj.get_section(symbol.section).address
